@@ -19,7 +19,7 @@ def registry():
     return reg
 
 
-def run(names, repo, workdir):
+def run(names, repo, workdir, tier="quick"):
     res = {"obligations": [], "undecided": [], "functions": [], "cmd": ""}
     if not names:
         return res
@@ -42,7 +42,13 @@ def run(names, repo, workdir):
     def one(n):
         t0 = time.time()
         try:
-            p = subprocess.run([exe, "--enum", n], capture_output=True, text=True, timeout=1500)
+            # thorough tier: wider value domains per draw and a ten times larger case budget
+            e = dict(os.environ)
+            args = [exe, "--enum", n]
+            if tier == "thorough":
+                e["VERIF_ENUM_WIDE"] = "1"
+                args.append("20000000")
+            p = subprocess.run(args, capture_output=True, text=True, timeout=1500 if tier == "quick" else 5400, env=e)
         except subprocess.TimeoutExpired:
             return n, None, "native harness %s: timeout" % n
         ob = {"name": "native::" + n, "engine": "native-enumeration", "complete": False, "bound": reg[n]["bound"], "seconds": round(time.time() - t0, 2)}
@@ -51,7 +57,7 @@ def run(names, repo, workdir):
         if m and p.returncode == 0 and int(m.group(1)) > 0:
             ob["status"] = "discharged"
             ob["cases"] = int(m.group(1))
-            ob["bound"] += "; %s combinations executed on the real code (exhausted=%s)" % (m.group(1), m.group(3))
+            ob["bound"] += "; %s combinations executed on the real code (exhausted=%s%s)" % (m.group(1), m.group(3), "; wide value domains" if tier == "thorough" else "")
         elif f:
             ob["status"] = "failed"
             ob["detail"] = "native enumeration: case #%s fails: %s" % (f.group(1), f.group(3).strip())
